@@ -4,7 +4,7 @@
    FASTA form of those rows is read back unchanged is C16 (layout independence); that both implementations
    are these models is the correspondence check, which also compares the real commands with each other. *)
 From Coq Require Import Floats.SpecFloat.
-From GF Require Import Base Alphabet SymbolsDef FastaModel Float TopK CodonModel Indels VariantsModel Cigar SamModel TopaModel Check_C04 Check_C11.
+From GF Require Import Base Alphabet SymbolsDef FastaModel Float TopK CodonModel Indels VariantsModel Cigar SamModel TopaModel TopaProofs PairProofs Check_C04 Check_C11 SamVariantsProofs.
 Open Scope N_scope.
 Theorem C11_samvariants_eq_variants_on_pair : forall ref gs inter b rc0 tl R Q,
   b = rc0 :: tl -> block_to_seq_pair ref b = Some (R, Q) ->
@@ -12,3 +12,14 @@ Theorem C11_samvariants_eq_variants_on_pair : forall ref gs inter b rc0 tl R Q,
   bind (variants_pair (map (enc false) R) (map (enc false) Q) gs inter) (fun vs => Ok [(s_name rc0, vs)]).
 Proof. exact samvariants_eq_variants_on_pair. Qed.
 Print Assumptions C11_samvariants_eq_variants_on_pair.
+
+(* second clause: when the query has no insertions, `sam variants` reports what `variants` computes for the alignment
+   made of the reference and the query's sam toMultiAlign --pad row (any number of records) *)
+Theorem C11_samvariants_eq_variants_on_toma_pad_row : forall ref gs inter rc0 tl,
+  ~ In 45 ref -> Forall (fun c => 42 <= c) ref -> block_insertions (rc0 :: tl) = [] ->
+  forall R Q, block_to_seq_pair ref (rc0 :: tl) = Some (R, Q) ->
+  exists raw, seq_from_block (length ref) (rc0 :: tl) = Some raw /\
+    sam_call_all ref gs inter [rc0 :: tl] =
+    bind (variants_pair (map (enc false) ref) (map (enc false) (fasta_seq true false 0 0 raw)) gs inter) (fun vs => Ok [(s_name rc0, vs)]).
+Proof. exact samvariants_eq_variants_on_toma_pad_row. Qed.
+Print Assumptions C11_samvariants_eq_variants_on_toma_pad_row.
